@@ -80,8 +80,28 @@ func hasRunFail(b *types.Block, txHash common.Hash) bool {
 	return false
 }
 
+// runCase checks the block mined from the list without a binding gas limit and then the blocks mined
+// with every gas limit at which the miner's pool runs dry at one of the (sub-)transactions: what
+// the miner drops because the block is full must cost nobody anything.
 func runCase(c caseT, r *core.Result) {
-	viol := func(fp, what string) { r.Violate(prop+"/"+fp, what+"; tx list "+c.String(), c) }
+	blk := runLimit(c, r, 0)
+	if blk == nil {
+		return
+	}
+	for _, limit := range chainkit.GasBoundaries(blk) {
+		r.Add("gas_limit_variants", 1)
+		runLimit(c, r, limit)
+	}
+}
+
+func runLimit(c caseT, r *core.Result, limit uint64) *types.Block {
+	viol := func(fp, what string) {
+		if limit > 0 {
+			fp = "full-block/" + fp
+			what = fmt.Sprintf("with block gas limit %d: %s", limit, what)
+		}
+		r.Violate(prop+"/"+fp, what+"; tx list "+c.String(), c)
+	}
 	parent := w.Head.Hash()
 	after := map[common.Address]*big.Int{}
 	var addrs []common.Address
@@ -113,7 +133,7 @@ func runCase(c caseT, r *core.Result) {
 				err = fmt.Errorf("panic: %v", p)
 			}
 		}()
-		blk, _, err = w.F.Make(node.BlockSpec{Parent: w.Head, Miner: node.Deputy(0), Time: chainkit.T0, Txs: w.Txs(c.List), Extra: "c05", NoSave: true, Inspect: inspect})
+		blk, _, err = w.F.Make(node.BlockSpec{Parent: w.Head, Miner: node.Deputy(0), Time: chainkit.T0, Txs: w.Txs(c.List), Extra: "c05", NoSave: true, Inspect: inspect, GasLimit: limit})
 	}()
 	if err != nil {
 		r.Add("miner_produced_no_block", 1)
@@ -121,7 +141,7 @@ func runCase(c caseT, r *core.Result) {
 			viol("negative-balance-panic", "the assembler failed with "+err.Error())
 		}
 		r.Outcome("no-block:" + err.Error())
-		return
+		return nil
 	}
 	r.Add("blocks_mined", 1)
 	sort.Slice(addrs, func(i, j int) bool { return addrs[i].Hex() < addrs[j].Hex() })
@@ -209,6 +229,7 @@ func runCase(c caseT, r *core.Result) {
 		}
 	}
 	r.Outcome(fmt.Sprintf("packaged=%d fees=%s burn=%s", len(blk.Txs), fees, burn))
+	return blk
 }
 
 func kindsWithBox(names []string) string {
@@ -306,7 +327,7 @@ func main() {
 		core.WorkerDone(r)
 	}
 	r := core.NewResult(prop, "exploration")
-	r.Rule = fmt.Sprintf("all ordered lists without repeats of length 1..%d over the %d-transaction menu (all 11 tx types incl. value-forwarding / reverting / self-destructing contracts, gas payer, boxes with sub-transaction gas prices different from the box's, deposits) mined on the prefix state; conservation monitor I1-I4 on every block; a distinct outcome is (packaged count, total fees, burn)", maxLen, len(chainkit.Menu))
+	r.Rule = fmt.Sprintf("all ordered lists without repeats of length 1..%d over the %d-transaction menu (all 11 tx types incl. value-forwarding / reverting / self-destructing contracts, gas payer, boxes with sub-transaction gas prices different from the box's, deposits) mined on the prefix state, and again with every block gas limit at which the pool runs dry at one of the (sub-)transactions (what a full block drops must cost nothing); conservation monitor I1-I4 on every block; a distinct outcome is (packaged count, total fees, burn)", maxLen, len(chainkit.Menu))
 	r.Assume = []string{"single deputy; ordinary heights (no reward block, no deposit refund at a term boundary) — see DESIGN.md for what is not covered", "the only burner in the menu is the contract that self-destructs to itself"}
 	r.Extra["cases"] = len(cases)
 	core.RunShards(r, core.Opt.Workers, nil, core.Opt.Budget+3*time.Minute, nil)
